@@ -539,7 +539,10 @@ func genC12(g *gen) {
 			if r := dilithium.VerifCAddQ(a - dQ); r != a {
 				bad = append(bad, finding{"C12", "caddq-spec", fmt.Sprintf("cAddQ(%d) = %d", a-dQ, r), []string{fmt.Sprintf("dl.caddq %d", a-dQ)}})
 			}
-			n += 5
+			if r := dilithium.VerifCAddQ(a); r != a { // non-negative operands are left alone (0 included)
+				bad = append(bad, finding{"C12", "caddq-spec", fmt.Sprintf("cAddQ(%d) = %d", a, r), []string{fmt.Sprintf("dl.caddq %d", a)}})
+			}
+			n += 6
 		}
 		mu.Lock()
 		g.predEvals += n
